@@ -437,7 +437,10 @@ func runC01(s *kernel.Sim, cfg string) {
 		n.Faults = simnet.Faults{Timed: true, Seed: netSeed, Segment: true, DupDen: 8, DropDen: 10}
 	}
 
-	p := &pipeline{}
+	p := &pipeline{slow: t.Chance(1, 2, "slow-handler")}
+	if p.slow {
+		s.Probe("handler-takes-time")
+	}
 	sv := startServers(s, n, p, serverOpts{dot: true, doh: true, doq: true})
 
 	nItems := t.Range(4, 24, "items")
@@ -623,7 +626,7 @@ func streamExchange(
 	chunks [][]byte,
 	yield bool,
 ) (frames [][]byte, end string) {
-	return streamExchangeHalf(s, n, addr, tc, chunks, yield, false)
+	return streamExchangeHalf(s, n, addr, tc, chunks, yield, "")
 }
 
 // streamExchangeHalf is streamExchange that optionally half-closes the
@@ -635,7 +638,7 @@ func streamExchangeHalf(
 	tc *tls.Config,
 	chunks [][]byte,
 	yield bool,
-	half bool,
+	after string,
 ) (frames [][]byte, end string) {
 	raw, err := n.Dial(addr, n.ClientAddr(clientIP(2)))
 	if err != nil {
@@ -665,12 +668,22 @@ func streamExchangeHalf(
 		}
 	}
 
-	if half {
+	switch after {
+	case "half":
 		// The client has said all it wants to say and half-closes, as a
 		// one-shot client does; its queries are still in flight.
 		if cw, ok := c.(interface{ CloseWrite() error }); ok {
 			_ = cw.CloseWrite()
 		}
+	case "abort":
+		// The client vanishes without reading: the server's writes fail.
+		raw.Reset()
+
+		return nil, "aborted"
+	case "partial":
+		// The beginning of one more message, and then silence: the server
+		// gives up on the connection after its read timeout.
+		_, _ = c.Write([]byte{0, 40, 0x12, 0x34, 1})
 	}
 
 	return readFrames(c, 4*time.Second)
@@ -710,11 +723,18 @@ func clientStream(s *task, n *simnet.Net, tr, addr string, items []*item, tc *tl
 			}
 		}
 
-		half := t.Chance(1, 3)
-		frames, end := streamExchangeHalf(s, n, addr, tc, chunks, true, half)
-		s.Logf("%s: group of %d (half-close=%v) -> %d frames, end=%s", tr, len(g), half, len(frames), end)
-		if half {
+		after := []string{"", "", "", "half", "half", "abort", "partial"}[t.Choose(7)]
+		frames, end := streamExchangeHalf(s, n, addr, tc, chunks, true, after)
+		s.Logf("%s: group of %d (then %q) -> %d frames, end=%s", tr, len(g), after, len(frames), end)
+		switch after {
+		case "half":
 			s.Probe(tr + "-half-closed-with-queries-in-flight")
+		case "partial":
+			s.Probe(tr + "-partial-message-then-silence")
+		case "abort":
+			s.Probe(tr + "-client-vanished")
+
+			continue
 		}
 
 		byID := map[uint16][]*dns.Msg{}
